@@ -30,7 +30,7 @@ CONSTANTS NGO,          \* go commands per session
                         \* FALSE: the thread reads the shared game after it got the mutex (pinned)
 
 GoCmds == {"go_inf", "go_time", "go_depth"}
-Cmds == {"position", "stop", "isready", "ucinewgame", "wait"} \cup GoCmds
+Cmds == {"position", "stop", "isready", "ucinewgame", "wait", "show"} \cup GoCmds
 
 (* --algorithm Uci {
 variables
@@ -109,6 +109,15 @@ variables cmd = [c |-> "none", q |-> FALSE], gi = 0;
  P2:       nver := nver + 1; game := nver; mutex := "free";
          }
        }
+       else if (cmd.c = "show") {
+         \* prints the game under the mutex; refused like position while the flag is up
+         if (flag[cur]) { out := Append(out, <<"err_running", cmd.c>>);
+                          if (cmd.q) { refusedQuiescent := TRUE } }
+         else {
+ H1:       await mutex = "free"; mutex := "main";
+ H2:       out := Append(out, <<"shown", game>>); mutex := "free";
+         }
+       }
        else if (cmd.c \in GoCmds) {
          if (flag[cur]) { out := Append(out, <<"err_running", cmd.c>>);
                           if (cmd.q) { refusedQuiescent := TRUE } }
@@ -169,7 +178,7 @@ variable tm = self[2];
  X1: flag[tm] := FALSE;                    \* the budget elapsed (any time after being armed)
 }
 } *)
-\* BEGIN TRANSLATION (chksum(pcal) = "35f26c0e" /\ chksum(tla) = "eddbe266")
+\* BEGIN TRANSLATION (chksum(pcal) = "4b997e3f" /\ chksum(tla) = "6c5bf43d")
 VARIABLES pc, pipe, sent, goSent, flag, cur, mutex, game, nver, asked, 
           searched, panicked, out, goes, kind, started, finished, armed, 
           handle, refusedQuiescent, readySent, infSent, sentlog
@@ -291,7 +300,7 @@ M1 == /\ pc[<<"main", 0>>] = "M1"
                                        /\ pc' = [pc EXCEPT ![<<"main", 0>>] = "M0"]
                                   ELSE /\ pc' = [pc EXCEPT ![<<"main", 0>>] = "P1"]
                                        /\ UNCHANGED << out, refusedQuiescent >>
-                       ELSE /\ IF cmd.c \in GoCmds
+                       ELSE /\ IF cmd.c = "show"
                                   THEN /\ IF flag[cur]
                                              THEN /\ out' = Append(out, <<"err_running", cmd.c>>)
                                                   /\ IF cmd.q
@@ -299,21 +308,33 @@ M1 == /\ pc[<<"main", 0>>] = "M1"
                                                         ELSE /\ TRUE
                                                              /\ UNCHANGED refusedQuiescent
                                                   /\ pc' = [pc EXCEPT ![<<"main", 0>>] = "M0"]
-                                             ELSE /\ IF goes < NGO
-                                                        THEN /\ pc' = [pc EXCEPT ![<<"main", 0>>] = "G1"]
-                                                        ELSE /\ pc' = [pc EXCEPT ![<<"main", 0>>] = "M0"]
+                                             ELSE /\ pc' = [pc EXCEPT ![<<"main", 0>>] = "H1"]
                                                   /\ UNCHANGED << out, 
                                                                   refusedQuiescent >>
-                                  ELSE /\ IF cmd.c = "stop"
-                                             THEN /\ pc' = [pc EXCEPT ![<<"main", 0>>] = "S1"]
-                                             ELSE /\ IF cmd.c = "wait"
-                                                        THEN /\ pc' = [pc EXCEPT ![<<"main", 0>>] = "W1"]
-                                                        ELSE /\ IF cmd.c = "ucinewgame"
-                                                                   THEN /\ IF flag[cur]
-                                                                              THEN /\ pc' = [pc EXCEPT ![<<"main", 0>>] = "N1"]
-                                                                              ELSE /\ pc' = [pc EXCEPT ![<<"main", 0>>] = "N3"]
+                                  ELSE /\ IF cmd.c \in GoCmds
+                                             THEN /\ IF flag[cur]
+                                                        THEN /\ out' = Append(out, <<"err_running", cmd.c>>)
+                                                             /\ IF cmd.q
+                                                                   THEN /\ refusedQuiescent' = TRUE
+                                                                   ELSE /\ TRUE
+                                                                        /\ UNCHANGED refusedQuiescent
+                                                             /\ pc' = [pc EXCEPT ![<<"main", 0>>] = "M0"]
+                                                        ELSE /\ IF goes < NGO
+                                                                   THEN /\ pc' = [pc EXCEPT ![<<"main", 0>>] = "G1"]
                                                                    ELSE /\ pc' = [pc EXCEPT ![<<"main", 0>>] = "M0"]
-                                       /\ UNCHANGED << out, refusedQuiescent >>
+                                                             /\ UNCHANGED << out, 
+                                                                             refusedQuiescent >>
+                                             ELSE /\ IF cmd.c = "stop"
+                                                        THEN /\ pc' = [pc EXCEPT ![<<"main", 0>>] = "S1"]
+                                                        ELSE /\ IF cmd.c = "wait"
+                                                                   THEN /\ pc' = [pc EXCEPT ![<<"main", 0>>] = "W1"]
+                                                                   ELSE /\ IF cmd.c = "ucinewgame"
+                                                                              THEN /\ IF flag[cur]
+                                                                                         THEN /\ pc' = [pc EXCEPT ![<<"main", 0>>] = "N1"]
+                                                                                         ELSE /\ pc' = [pc EXCEPT ![<<"main", 0>>] = "N3"]
+                                                                              ELSE /\ pc' = [pc EXCEPT ![<<"main", 0>>] = "M0"]
+                                                  /\ UNCHANGED << out, 
+                                                                  refusedQuiescent >>
       /\ UNCHANGED << pipe, sent, goSent, flag, cur, mutex, game, nver, asked, 
                       searched, panicked, goes, kind, started, finished, armed, 
                       handle, readySent, infSent, sentlog, cmd, gi, me, tm >>
@@ -336,6 +357,24 @@ P2 == /\ pc[<<"main", 0>>] = "P2"
                       out, goes, kind, started, finished, armed, handle, 
                       refusedQuiescent, readySent, infSent, sentlog, cmd, gi, 
                       me, tm >>
+
+H1 == /\ pc[<<"main", 0>>] = "H1"
+      /\ mutex = "free"
+      /\ mutex' = "main"
+      /\ pc' = [pc EXCEPT ![<<"main", 0>>] = "H2"]
+      /\ UNCHANGED << pipe, sent, goSent, flag, cur, game, nver, asked, 
+                      searched, panicked, out, goes, kind, started, finished, 
+                      armed, handle, refusedQuiescent, readySent, infSent, 
+                      sentlog, cmd, gi, me, tm >>
+
+H2 == /\ pc[<<"main", 0>>] = "H2"
+      /\ out' = Append(out, <<"shown", game>>)
+      /\ mutex' = "free"
+      /\ pc' = [pc EXCEPT ![<<"main", 0>>] = "M0"]
+      /\ UNCHANGED << pipe, sent, goSent, flag, cur, game, nver, asked, 
+                      searched, panicked, goes, kind, started, finished, armed, 
+                      handle, refusedQuiescent, readySent, infSent, sentlog, 
+                      cmd, gi, me, tm >>
 
 G1 == /\ pc[<<"main", 0>>] = "G1"
       /\ cur' = goes + 1
@@ -493,8 +532,8 @@ N2 == /\ pc[<<"main", 0>>] = "N2"
                       armed, refusedQuiescent, readySent, infSent, sentlog, 
                       cmd, gi, me, tm >>
 
-Main == M0 \/ M1 \/ P1 \/ P2 \/ G1 \/ G2 \/ G3 \/ G4 \/ G5 \/ G6 \/ G7
-           \/ G8 \/ S1 \/ S2 \/ W1 \/ N3 \/ N4 \/ N1 \/ N2
+Main == M0 \/ M1 \/ P1 \/ P2 \/ H1 \/ H2 \/ G1 \/ G2 \/ G3 \/ G4 \/ G5
+           \/ G6 \/ G7 \/ G8 \/ S1 \/ S2 \/ W1 \/ N3 \/ N4 \/ N1 \/ N2
 
 T0(self) == /\ pc[self] = "T0"
             /\ started[me[self]]
